@@ -185,6 +185,11 @@ SizeOk(s, ev) == ev.size <= (IF ev.lst = "udp" THEN UdpLimit(s) ELSE 65535)
 UpAnswerCount(u) == IF u.rcode = 0 /\ ~u.nodata THEN Len(u.ttls) + u.ntxt ELSE 0
 TruncOk(s, ev) == (RespTok(ev) # 0 /\ RespTok(ev) \in DOMAIN upsent /\ ~upsent[RespTok(ev)].tc) =>
                      (ev.tc = (ev.nan < UpAnswerCount(upsent[RespTok(ev)])))
+\* nothing is omitted when the message's uncompressed encoding (with the proxy's 11-octet OPT if the query had one)
+\* fits the limit of this transport
+NoNeedlessOmitOk(s, ev) == (RespTok(ev) # 0 /\ RespTok(ev) \in DOMAIN upsent /\ ~upsent[RespTok(ev)].tc /\ Has(upsent[RespTok(ev)], "ulen")
+                            /\ upsent[RespTok(ev)].ulen + (IF s.opt THEN 11 ELSE 0) <= (IF ev.lst = "udp" THEN UdpLimit(s) ELSE 65535))
+                           => (~ev.tc /\ ev.nan = UpAnswerCount(upsent[RespTok(ev)]))
 
 \* a client whose own subnet stays within its budget is never refused because of other subnets' traffic
 IsolationOk(s, ev) == (cfg.limit > 0 /\ Supported(s) /\ ~(Has(s, "mayrefuse") /\ s.mayrefuse) /\ Dec(LowerName(s.name)).kind = "forward")
@@ -210,6 +215,7 @@ ClRecv == /\ IsEvent("cl.recv")
                                \cup (IF IsolationOk(s, ev) THEN {} ELSE {"Inv_C15_Isolation"})
                                \cup (IF SizeOk(s, ev) THEN {} ELSE {"Inv_C09_ListenerLimit"})
                                \cup (IF TruncOk(s, ev) THEN {} ELSE {"Inv_C09_TcIff"})
+                               \cup (IF NoNeedlessOmitOk(s, ev) THEN {} ELSE {"Inv_C09_NoNeedlessOmit"})
                                \cup (IF NoDelayOk(s, ev) THEN {} ELSE {"Inv_C19_NoDelay"})
                                \cup (IF RenewedOk(s, ev) THEN {} ELSE {"Inv_C19_Renewed"})
                                \cup (IF RenewedBBOk(s, ev) THEN {} ELSE {"Inv_C19_RenewedRelayed"})))
@@ -302,6 +308,16 @@ CacheStore == /\ IsEvent("cache.store")
                            \cup (IF ev.tc THEN {"Inv_C08_NoStoreTc"} ELSE {})
                            \cup (IF ev.tok \in DOMAIN upsent /\ ev.expire - ev.stored <= Max2(LifetimeMs(upsent[ev.tok], cfg.maxttl), 1000) + 5
                                  THEN {} ELSE IF ev.tok \in DOMAIN upsent THEN {"Inv_C08_Lifetime"} ELSE {})
+                           \* a record-less answer carries no token: it is the newest answer an upstream gave for this
+                           \* question (only when all of them agree on the lifetime, so that a concurrent other answer
+                           \* cannot be mistaken for it)
+                           \cup (IF ev.tok = 0
+                                 THEN LET ks == {k \in DOMAIN upsent : upsent[k].name = ev.name /\ upsent[k].cls = ev.cls /\ upsent[k].typ = ev.typ
+                                                                        /\ upsent[k].kind = "reply" /\ ~upsent[k].tc}
+                                          ls == {LifetimeMs(upsent[k], cfg.maxttl) : k \in ks}
+                                      IN IF Cardinality(ls) = 1 /\ ev.expire - ev.stored > Max2(CHOOSE x \in ls : TRUE, 1000) + 5
+                                         THEN {"Inv_C08_Lifetime"} ELSE {}
+                                 ELSE {})
                            \cup (IF ev.neg = (ev.rcode # 0) THEN {} ELSE {"Inv_C08_NoDisplace"})
                            \* a stored answer was produced by an upstream for exactly this question
                            \cup (IF ev.tok # 0 /\ ~(ev.tok \in DOMAIN upsent /\ upsent[ev.tok].name = ev.name
